@@ -4,6 +4,7 @@ import (
 	"encoding/base64"
 	"encoding/json"
 	"fmt"
+	"math"
 	"math/big"
 	"regexp"
 	"strings"
@@ -185,6 +186,24 @@ func c05Module(c c05Case) (text string) {
 			}
 			prev = name
 		}
+		if c.Kind == "pattern" {
+			// the same pattern texts stated elsewhere in the module with the opposite modifier: what
+			// another leaf (declared before x) says about a pattern is nothing to x
+			n := 0
+			for _, lv := range c.Levels {
+				for _, p := range strings.Split(lv, "&") {
+					if p == "" {
+						continue
+					}
+					n++
+					if strings.HasPrefix(p, "!") {
+						fmt.Fprintf(&sb, "  leaf opposite%d { type string { pattern \"%s\"; } }\n", n, p[1:])
+					} else {
+						fmt.Fprintf(&sb, "  leaf opposite%d { type string { pattern \"%s\" { modifier invert-match; error-message \"other\"; } } }\n", n, p)
+					}
+				}
+			}
+		}
 		last := restr(c.Levels[len(c.Levels)-1])
 		ty := fmt.Sprintf("type %s;", prev)
 		if last != "" {
@@ -294,6 +313,15 @@ func c05RangeCands(c c05Case) []c05Cand {
 		add(big.NewRat(0, 1), "zero")
 		add(big.NewRat(-1000, 1), "far")
 		add(big.NewRat(1000, 1), "far")
+		// numbers with more fraction digits than the type has are not values of the type (RFC 7950 9.3.4)
+		for _, alts := range levels {
+			mid := new(big.Rat).Add(alts[0].lo, big.NewRat(1, 1000))
+			if f, _ := mid.Float64(); inAlts(mid, alts) && !seen[fmt.Sprint(f)] && math.Abs(f) < 1e12 {
+				seen[fmt.Sprint(f)] = true
+				txt := mid.FloatString(3)
+				out = append(out, c05Cand{raw: f, json: txt, xml: txt, typed: val.Decimal64(f), accept: false, class: "more-fraction-digits-than-the-type"})
+			}
+		}
 		return out
 	}
 	var it intType
